@@ -106,3 +106,15 @@ func (z *mZstdReader) Close() error {
 	z.closed = true
 	return nil
 }
+
+// Zstd_Decoder_DecodeAll: one-shot decoding of a client-compressed buffer
+// (BatchUpdateBlobs, HTTP PUT of a zstd-wrapped ActionResult).
+func Zstd_Decoder_DecodeAll(d *zstd.Decoder, input, dst []byte) ([]byte, error) {
+	s, off, ok := vsym.Prov(input)
+	if !ok || s != ZstdUpload.CompressedSrc || off != 0 || int64(len(input)) != ZstdUpload.CompressedLen || ZstdUpload.Corrupt {
+		return nil, errZstdCorrupt
+	}
+	out := vsym.MakeBytes(int(ZstdUpload.DecodedLen))
+	vsym.Fill(out, int(ZstdUpload.DecodedLen), ZstdUpload.DecodedSrc, 0)
+	return out, nil
+}
